@@ -117,7 +117,7 @@ def run(ctx):
                  ('SEQ', (DUP(1), ('NIL', P(t, STR)), ('SWAP',), ('ITER', (('CONS',),)), ('SWAP',)))]
         fams['map%d' % idx] = dict(depth=depth, maxstack=3, inits=[(S(MAP(t, STR), ('map', ())),)], alphabet=mops)
     for name in ('bigmap', 'bigset'):        # 9 / 17 / 20 entries: beyond any size threshold an implementation may switch algorithms at
-        fams[name] = dict(vmfam.FAMILIES[name], depth=2 if ctx.quick else 3)
+        fams[name] = dict(vmfam.FAMILIES[name], depth=2)
     C01.run_families(ctx, 'C14', 'coll', fams)
     ctx.exhaustive = True
 
@@ -142,6 +142,6 @@ META = {
              'as well-typed programs of VM.tla (adding SIZE, ITER and MAP), are replayed in pytezos with the whole collection and every observation compared after each '
              'step; every literal of up to 3 keys is pushed in pytezos and must be accepted exactly when strictly sorted.'),
     'design_ref': 'DESIGN.md section 5 C14, A.2',
-    'note': 'Trusted: MichSem order (checked by C03), terms.py. Bounds: 3 keys and 2 values per key type, histories of 4 (5) dictionary operations in Coll.tla, 3 (4) compound steps in the replayed programs; plus maps and sets of 9 / 17 / 20 integer keys with 2 (3) steps (lookups and updates below, inside and above the key range).',
+    'note': 'Trusted: MichSem order (checked by C03), terms.py. Bounds: 3 keys and 2 values per key type, histories of 4 (5) dictionary operations in Coll.tla, 3 (4) compound steps in the replayed programs; plus maps and sets of 9 / 17 / 20 / 40 integer keys with 2 steps (lookups and updates below, inside and above the key range).',
     'technique': 'TLA+ sorted-collection model vs reference dictionary, TLC exhaustive over histories; replay of histories and literals into pytezos',
 }
